@@ -14,7 +14,7 @@ SPEC = dict(
     assumptions=["process-crash model (no loss of un-synced blocks)", "2 WAL partitions, TSSTORE engine, level-compaction group size 2, 2-row segments",
                  "leftover .init/.tmp files that are ignored by the loader are counted in the evidence, not reported"],
 )
-CLAIMED = False
+CLAIMED = True
 MANIFEST = dict(
     level="fault_enumeration", engine="crashfs",
     technique="exhaustive crash-point enumeration of every reorganisation (compaction/merge replace protocol) over all bounded input layouts, real recovery, content-equality oracle",
